@@ -509,7 +509,7 @@ def run_bits(case, d, labels):
         x = y & 0x7fffffff
     bits = "".join(bitstr)
     pad = (-len(bits)) % 8
-    bits_p = bits + ("1" if case["flush"] else "0") * pad
+    bits_p = bits + "?" * pad      # pad bits are not part of the written sequence: never compared
     nbytes = len(bits_p) // 8
     p = Prog()
     p.call("i", "Hopen", path, 7, 0, bind="f")
@@ -576,13 +576,21 @@ def run_bits(case, d, labels):
             pass    # reading past the stored bits: outside the property (only: no crash)
         else:
             pos, w = arg
-            want = int(bits_p[pos:pos + w], 2)
+            win = bits_p[pos:pos + w]
             got = struct.unpack("=I", r.bufs[0])[0]
+            if "?" in win:
+                if r.ret != w:
+                    raise Fail("Hbitread inside the element failed", bitpos=pos, width=w, ret=r.ret)
+                k = win.index("?")
+                if k == 0 or (got >> (w - k)) == int(win[:k], 2):
+                    continue
+                raise Fail("Hbitread differs from written bit sequence (before pad)", bitpos=pos, width=w)
+            want = int(win, 2)
             if r.ret != w or got != want:
                 raise Fail("Hbitread differs from written bit sequence", bitpos=pos, width=w, expected=want,
                            observed=got, ret=r.ret)
-    if res(ll).ret != nbytes:
-        raise Fail("bit element length differs", expected=nbytes, observed=res(ll).ret)
+    if res(ll).ret < nbytes:
+        raise Fail("bit element shorter than the bits written", expected_min=nbytes, observed=res(ll).ret)
     if not rr.done:
         raise Fail("crash", detail=rr.sanitizer_summary(), frames=rr.crash_frames(), text=rr.stderr[-1500:])
     if len(set(widths)) >= 3 and seeks >= 1 and len(rw) >= 1:
